@@ -237,7 +237,66 @@ def gen_scenarios(ctx, table):
     probes = [{"flight": i, "transport": "prefix" if f["kind"] == "crafted" else objs[f["obj"]]["transport"],
                "phantom": -(f["obj"] + 1), "mut": {"kind": "none"}} for i, f in enumerate(fl)]
     mk(objs, ops, fl, probes, name="params")
+
+    # 4. table-driven reveal function and custom prefix tables (iteration-order dependence, thresholds)
+    for _ in range(1 if quick else 6):
+        scs.append(gen_synthetic(rng, 120 if quick else 400))
     return scs
+
+
+def hmac_id(secret_hex, label):
+    import hashlib
+    import hmac
+    return hmac.new(bytes.fromhex(secret_hex), label.encode(), hashlib.sha256).hexdigest()
+
+
+SYN_TABLE = [
+    {"id": 0, "static": "", "offset": 0, "minlen": 64, "maxlen": 64},
+    {"id": 1, "static": "4142", "offset": 2, "minlen": 66, "maxlen": 66},
+    {"id": 2, "static": "414243", "offset": 3, "minlen": 67, "maxlen": 67},
+    {"id": 3, "static": "41", "offset": 1, "minlen": 40, "maxlen": 65},      # MinLen below Offset+64: the second try-again branch
+    {"id": 4, "static": "5a", "offset": 1, "minlen": 65, "maxlen": 70},      # MaxLen above Offset+64: the skip-until-MaxLen branch
+    {"id": 7, "static": "4158", "offset": 5, "minlen": 69, "maxlen": 69},    # Offset beyond the static bytes
+]
+
+
+def gen_synthetic(rng, n_streams):
+    """custom prefix tables and a table-driven TagObfuscator: exercises the loop of tryFindReg for arbitrary reveal
+    functions (several tags in one stream, several station keys, thresholds that the default table never reaches);
+    the outcome may depend on Go's map iteration order, every probe is repeated"""
+    secrets = [rhex(rng, 32) for _ in range(6)]
+    objs = [
+        {"secret": secrets[0], "transport": "prefix", "phantom": 0, "libver": 4, "params": {"kind": "prefix", "prefix_id": 1}},
+        {"secret": secrets[1], "transport": "prefix", "phantom": 0, "libver": 4, "params": {"kind": "prefix", "prefix_id": 2}},
+        {"secret": secrets[2], "transport": "prefix", "phantom": 0, "libver": 4, "params": {"kind": "prefix", "prefix_id": 0}},
+        {"secret": secrets[3], "transport": "min", "phantom": 0, "libver": 4, "params": {"kind": "generic"}},
+        {"secret": secrets[4], "transport": "prefix", "phantom": 0, "libver": 4, "params": {"kind": "prefix", "prefix_id": 3}},
+        {"secret": secrets[5], "transport": "prefix", "phantom": 1, "libver": 4, "params": {"kind": "prefix", "prefix_id": 4}},
+        {"secret": secrets[5], "transport": "prefix", "phantom": 0, "libver": 4, "params": {"kind": "prefix", "prefix_id": 7}},
+        {"secret": secrets[0], "transport": "prefix", "phantom": 2, "libver": 4, "params": {"kind": "prefix", "prefix_id": 1}},
+    ]
+    ids = [hmac_id(o["secret"], "MinTrasportHMACString" if o["transport"] == "min" else "PrefixTransportHMACString") for o in objs]
+    ops = [{"op": "validate", "obj": k} for k in range(len(objs)) if k != 7] + [{"op": "track", "obj": 7}]
+    flights, probes, reveal = [], [], {}
+    for _ in range(n_streams):
+        head = rng.choice(["414243", "4142", "41", "5a", "4158", "41", "", "4143"])
+        n = rng.choice([38, 39, 40, 41, 63, 64, 65, 66, 67, 68, 69, 70, 71, 72, 80])
+        body = head + rhex(rng, 100)
+        data = bytes.fromhex(body)[:n]
+        for row in SYN_TABLE:
+            off = row["offset"]
+            if off + 64 <= len(data):
+                for key in (0, 1):
+                    r = rng.random()
+                    if r < 0.45:
+                        continue                      # TryReveal fails for this key
+                    val = rng.choice(ids) if r < 0.85 else rhex(rng, 32)
+                    reveal.setdefault((key, data[off:off + 64].hex()), val)
+        flights.append({"kind": "raw", "hex": data.hex(), "role": "synthetic", "extra": ""})
+        probes.append({"flight": len(flights) - 1, "transport": "prefix", "phantom": rng.choice([0, 0, 0, 1, 2]),
+                       "mut": {"kind": "none"}, "repeat": 6})
+    return {"nkeys": 2, "phantoms": PHANTOMS, "objects": objs, "ops": ops, "flights": flights, "probes": probes,
+            "table": SYN_TABLE, "reveal": [[str(k), c, v] for (k, c), v in reveal.items()], "name": "synthetic", "subnets": ""}
 
 
 # ------------------------------------------------------------------ Gallina emission
@@ -337,6 +396,20 @@ def oracle(ctx, S, res, scn_for_replay):
                              "stream": res["data"][:400]})
 
     tr = res["transport"]
+    if sc.get("name") == "synthetic":
+        # the property relative to the scripted reveal function: some (row, key) reveals the identifier of the
+        # matched registration, which is valid on that phantom, of the Prefix transport and registered for that row
+        got = res["obj"]
+        go = S.objs[got] if got >= 0 else None
+        lv = S.live().get((res["phantom"], go["id"])) if go else None
+        rows = [r for r in out["table"] if r["offset"] + 64 == res["consumed"] and res["data"].startswith(r["static"])]
+        ok = go is not None and lv is not None and lv[1] and lv[0] == got and go["transport"] == 4 and go["params"] == "prefix" \
+            and any(r["id"] == go["prefix_id"] and any(e["off"] == r["offset"] and e["id"] == go["id"] for e in (res["reveal"] or []))
+                    for r in rows)
+        if not ok:
+            bad("accept:synthetic-reveal", "with a scripted reveal function the prefix transport matched object %d although no "
+                "(prefix row, key) reveals the identifier of a validated Prefix registration of that row on %s" % (got, res["phantom"]))
+        return
     if f["kind"] == "raw":
         return bad("accept:unknown-secret/" + tr, "a stream that proves no secret was accepted by %s (registration object %d)" % (tr, res["obj"]))
     k = f["obj"]
@@ -416,12 +489,12 @@ def run(ctx):
     for fn in os.listdir(lib.GEN):
         if fn.startswith(("cases_C02_", ".cases_C02_")):
             os.remove(os.path.join(lib.GEN, fn))
-    rc, out = ctx.coq_make(["C02/Run.vo"])
+    rc, out = ctx.coq_make(["C02/Run.vo", "C02/Examples.vo", "C02/Refuted.vo"])
     if rc != 0:
-        ctx.broken("model-build", "model does not compile: " + out[-500:])
-        return
-    rc, out = ctx.coq_make(["C02/Examples.vo", "C02/Refuted.vo"])
-    if rc != 0:
+        rc2, out2 = ctx.coq_make(["C02/Run.vo"])
+        if rc2 != 0:
+            ctx.broken("model-build", "model does not compile: " + out2[-500:])
+            return
         ctx.broken("proof-obligation", "non-vacuity examples / refutation witness no longer check: " + out[-500:])
     import time
     T = {"t0": time.time()}
@@ -451,7 +524,7 @@ def run(ctx):
     for f in (ctx.replay or {}).get("failures", []) + (ctx.replay or {}).get("theorem_or_correspondence", []):
         c = f.get("case") or {}
         if "scenario" in c:
-            scs.insert(0, c["scenario"])
+            scs.insert(0, dict(c["scenario"], subnets=os.path.join(lib.REPO, "internal/test_assets/phantom_subnets.toml")))
     rc, out, outs = ctx.go_inpkg(".", "pkg/station/lib", {"zz_verif_driver_test.go": "c02/wrap_driver_test.go"},
                                  "^TestVerifC02Wrap$", scs, timeout=1500)
     if not outs or len(outs) != len(scs):
@@ -460,6 +533,7 @@ def run(ctx):
 
     lap("go")
     defs, terms, meta, vterms, vmeta = [], [], [], [], []
+    syn_seen = {}
     for si, (sc, o) in enumerate(zip(scs, outs)):
         if o.get("panic"):
             ctx.broken("driver", "scenario %d crashed: %s" % (si, o["panic"]), {"scenario": sc})
@@ -500,6 +574,9 @@ def run(ctx):
             oracle(ctx, S, r, sc)
             # classification of the probe for the generator self-test
             kinds = [r["transport"] + "/" + r["class"]]
+            if sc.get("name") == "synthetic":
+                kinds = ["synthetic/" + r["class"]]
+                syn_seen.setdefault((si, r["probe"]), set()).add((r["class"], r["obj"], r["consumed"]))
             if f["kind"] != "raw":
                 ob, oo = sc["objects"][f["obj"]], o["objects"][f["obj"]]
                 home = "prefix" if f["kind"] == "crafted" else ob["transport"]
@@ -547,6 +624,9 @@ def run(ctx):
             ctx.sample({"scenario": sc.get("name"), "ops": sc["ops"][:8], "probe": sc["probes"][r0["probe"]],
                         "stream": r0["data"][:160], "observed": {k: r0[k] for k in ("class", "obj", "consumed")}})
 
+    ctx.cov["histogram"]["synthetic/order-dependent-outcome-observed"] = sum(1 for v in syn_seen.values() if len(v) > 1)
+    ctx.require_kinds(["synthetic/found", "synthetic/tryagain", "synthetic/nottransport", "synthetic/incorrect_transport",
+                       "synthetic/incorrect_prefix", "synthetic/order-dependent-outcome-observed"])
     ctx.require_kinds(["min/found", "min/nottransport", "min/tryagain", "prefix/found", "prefix/tryagain", "prefix/nottransport",
                        "prefix/incorrect_transport", "prefix/incorrect_prefix", "obfs4/found", "obfs4/tryagain", "obfs4/nottransport",
                        "obfs4/err_other", "probe/cross-phantom", "probe/cross-transport", "probe/min-tag-as-prefix-flight",
@@ -559,7 +639,7 @@ def run(ctx):
         ctx.broken("model-eval", "coqc failed on the generated definitions: %s" % o3[-600:])
         return
     header = HEADER + "From CJ Require Import gen.%s.\n" % dname
-    mm = ctx.coq_mismatches("wrap", header, terms, "chk", shard=max(60, (len(terms) + 15) // 16), need_vo=["C02/Run.vo"])
+    mm = ctx.coq_mismatches("wrap", header, terms, "chk", shard=max(60, (len(terms) + 15) // 16))
     if mm:
         ctx.cov["mismatches"] += len(mm)
         si, r = meta[mm[0]]
